@@ -1,7 +1,7 @@
 (* C13 correspondence dispatch: one case = (op, s, ints, bytes); ops 0..13 are the varint
    codecs (Model.run_case), the rest the cells added later.  Definitions only. *)
 From ZV.Common Require Import Base Run.
-From ZV.C13 Require Import Model ModelIO ModelReader ModelTypes ModelVersioned.
+From ZV.C13 Require Import Model ModelIO ModelReader ModelTypes ModelVersioned ModelWriter.
 Open Scope N_scope.
 
 Definition run_case2 (op s : N) (ints : list Z) (bytes : list N) : option (list Z) :=
@@ -33,5 +33,8 @@ Definition run_case2 (op s : N) (ints : list Z) (bytes : list N) : option (list 
   | 42 => run_enc_rec ints
   | 43 => run_dec_rec ints bytes
   | 44 => run_vs_deser ints bytes
+  (* writer histories: StreamBufferedWriter / ZeroCopyWriter over an inner writer taking `s` bytes per call *)
+  | 50 => run_writer false s ints
+  | 51 => run_writer true s ints
   | _ => run_case op s ints bytes
   end.
